@@ -72,6 +72,14 @@ def judge(site):
         return True, COMMENT_LITERAL_SITES[key]
     if key in JUSTIFIED_IDENTIFIER_SITES:
         return True, JUSTIFIED_IDENTIFIER_SITES[key]
+    if site.get("file") == "norminette/rules/check_preprocessor_protection.py":
+        # the symbol after #ifndef / #define / #endif is what C14 is about: however the rule spells the
+        # comparison with the guard derived from the file name (plain read, ==, !=, upper-cased first) --
+        # as long as the other side is that derived name and not a constant of the rule's own
+        txt = site.get("consumer", "")
+        if k == "PLAIN" or (k in ("EQ_CONST", "UPPER_EQ_CONST") and d == ["<guard>"]) or \
+                (k == "OTHER" and txt.replace(" ", "").endswith(".value.upper()")):
+            return True, "guard symbol compared with the name derived from the file name (C14)"
     if k == "EQ_CONST":
         bad = [c for c in d if c not in SPECIAL_NAMES and c not in DIRECTIVE_NAMES]
         if bad:
